@@ -316,6 +316,26 @@ theorem decode_complete (d1 d2 tail : List Char) (h1 : d1 ≠ []) (h2 : d2 ≠ [
 example : decodeRange "007:08\n".toList = .ok (7, 8) := by decide
 
 
+/-- Total form of the DateTime round trip for non-negative ranges: what `extratags` writes is read back exactly when
+    both ends fit int64, and is refused with `OverflowError` (never misread) when one does not. -/
+theorem datetime_roundtrip_total (a b : Int) (ha : 0 ≤ a) (hb : 0 ≤ b) :
+    decodeRange (encodeRange a b) = if a < 2 ^ 63 ∧ b < 2 ^ 63 then .ok (a, b) else .error .overflow := by
+  obtain ⟨va, da, na⟩ := natDigits_spec a.toNat
+  obtain ⟨vb, db, nb⟩ := natDigits_spec b.toNat
+  have e1 : ((a.toNat : Nat) : Int) = a := Int.toNat_of_nonneg ha
+  have e2 : ((b.toNat : Nat) : Int) = b := Int.toNat_of_nonneg hb
+  have h := decode_complete (natDigits a.toNat) (natDigits b.toNat) [] na nb da db (Or.inl rfl)
+  rw [List.append_nil] at h
+  unfold encodeRange showInt
+  rw [if_neg (by omega), if_neg (by omega), h, va, vb, e1, e2]
+  have c : (a.toNat < 2 ^ 63 ∧ b.toNat < 2 ^ 63) ↔ (a < 2 ^ 63 ∧ b < 2 ^ 63) := by omega
+  by_cases hc : a < 2 ^ 63 ∧ b < 2 ^ 63
+  · rw [if_pos hc, if_pos (c.mpr hc)]
+  · rw [if_neg hc, if_neg (fun h' => hc (c.mp h'))]
+
+example : decodeRange (encodeRange 5 9223372036854775808) = .error .overflow := by
+  rw [datetime_roundtrip_total _ _ (by decide) (by decide)]; decide
+
 /-! ## Legacy files -/
 
 /-- `_frame_timestamps_from_exposure_timestamps`: as many ranges as frames; every frame but the last
@@ -924,6 +944,98 @@ example :
       = some [⟨40, 48, 5, [[22, 23]]⟩] := by
   decide +kernel
 
+/-! ## Legacy files under selection programs -/
+
+/-- The pages a program of basic steps selects (Python slicing of the page list; a crop keeps the pages). -/
+def specVis {α} (v : List (Page α)) : Op → Option (List (Page α))
+  | .slice a b c => some (pySliceStep v a b (c.getD 1).toNat)
+  | .index i => (pyIndex v i).map fun p => [p]
+  | .crop .. => some v
+  | _ => none
+
+def specRunVis {α} : List (Page α) → List Op → Option (List (Page α))
+  | v, [] => some v
+  | v, op :: rest => (specVis v op).bind fun o => specRunVis o rest
+
+/-- Legacy or not: after any accepted chain of slices, indices and crops the stack looks at exactly the pages the
+    same chain of Python selections picks from the pages it looked at before. -/
+theorem program_visible {α} (f : File α) (ops : List Op) : ∀ (s : Stack), 0 < s.st →
+    (∀ op ∈ ops, op.isBasic = true) → ∀ s', s.run ops = .ok s' →
+      ∃ v, specRunVis (s.visible f) ops = some v ∧ s'.visible f = v ∧ 0 < s'.st := by
+  induction ops with
+  | nil =>
+    intro s hst _ s' h
+    unfold Stack.run at h
+    cases h
+    exact ⟨_, rfl, rfl, hst⟩
+  | cons op rest ih =>
+    intro s hst hb s' h
+    unfold Stack.run at h
+    cases ha : s.applyOp op with
+    | error e => rw [ha] at h; cases h
+    | ok s1 =>
+      rw [ha] at h
+      have hb1 := hb op (List.mem_cons_self ..)
+      have hrest := fun o ho => hb o (List.mem_cons_of_mem _ ho)
+      have step : ∃ v1, specVis (s.visible f) op = some v1 ∧ s1.visible f = v1 ∧ 0 < s1.st := by
+        cases op with
+        | slice a b c =>
+          have hsl : s.sliceFrames a b c = .ok s1 := ha
+          have hc := sliceFrames_ok_step s hst a b c s1 hsl
+          obtain ⟨hv, _, hst1⟩ := visible_selection s f hst a b c hc s1 hsl
+          exact ⟨_, rfl, hv, hst1⟩
+        | index i =>
+          have hix : s.index i = .ok s1 := ha
+          have h0 := index_refines s hst i
+          rw [hix] at h0
+          cases hp : pyIndex s.frames i with
+          | none => rw [hp] at h0; exact absurd h0 id
+          | some p =>
+            rw [hp] at h0
+            simp only at h0
+            obtain ⟨hfr, hst', _⟩ := h0
+            refine ⟨[f.pages.getD p.toNat Page.blank], ?_, ?_, by rw [hst']; exact hst⟩
+            · show (pyIndex (s.visible f) i).map (fun p => [p]) = _
+              unfold Stack.visible
+              rw [pyIndex_map, hp]; rfl
+            · unfold Stack.visible; rw [hfr]; rfl
+        | crop x0 x1 y0 y1 =>
+          have hcp : s.cropPixels x0 x1 y0 y1 = .ok s1 := ha
+          unfold Stack.cropPixels at hcp
+          cases hc : s.roi.crop x0 x1 y0 y1 with
+          | error e => rw [hc] at hcp; cases hcp
+          | ok r =>
+            rw [hc] at hcp
+            cases hcp
+            exact ⟨_, rfl, rfl, hst⟩
+        | tuple items => cases hb1
+        | dataset a b c => cases hb1
+      obtain ⟨v1, hspec, hv1, hst1⟩ := step
+      obtain ⟨v, hs', hv, hst'⟩ := ih s1 hst1 hrest s' h
+      refine ⟨v, ?_, hv, hst'⟩
+      unfold specRunVis
+      rw [hspec, ← hv1]
+      exact hs'
+
+/-- Hence for a legacy file: whatever chain of selections was applied, the DateTime tags of the export are the frame
+    ranges reconstructed (own start to next start) from the SELECTED pages, the exposures are their old DateTime spans. -/
+theorem legacy_program_tags {α} (f : File α) (hleg : f.legacy = true) (ops : List Op)
+    (hb : ∀ op ∈ ops, op.isBasic = true) (s s' : Stack) (hst : 0 < s.st) (h : s.run ops = .ok s')
+    (out : List (OutPage α)) (hout : exportPages s' f = .ok out) :
+    ∃ v, specRunVis (s.visible f) ops = some v ∧
+      legacyRanges (v.map fun p => (p.start, p.stop)) = some (out.map fun o => (o.start, o.stop)) ∧
+      out.map (·.exposure) = v.map (fun p => p.expStop - p.start) := by
+  obtain ⟨v, hv, hvis, _⟩ := program_visible f ops s hst hb s' h
+  obtain ⟨h1, h2, _⟩ := export_legacy_tags s' f hleg out hout
+  rw [hvis] at h1 h2
+  exact ⟨v, hv, h1, h2⟩
+
+example :
+    let f : File Int := ⟨[⟨10, 18, 18, [[0]]⟩, ⟨20, 28, 28, [[1]]⟩, ⟨35, 43, 43, [[2]]⟩, ⟨45, 53, 53, [[3]]⟩, ⟨60, 68, 68, [[4]]⟩], true⟩
+    let ops : List Op := [.slice none none (some 2), .slice (some 1) none none]
+    (((Stack.ofFile f).run ops).toOption.bind fun s' => (exportPages s' f).toOption)
+      = some [⟨35, 60, 8, [[2]]⟩, ⟨60, 85, 8, [[4]]⟩] := by decide +kernel
+
 /-! ## A kymograph is exported as one frame from its first line to its last -/
 
 /-- `Kymo._tiff_timestamp_ranges` (with and without dead time): the frame written is `(min, max)` over ALL starts and
@@ -1032,6 +1144,25 @@ example : (exportTiff (some .u8) true [[1, 2], [3, 300]] [(10, 20), (20, 30)] [(
     always return one range per frame; see `export_tiff_roundtrip` for that case). -/
 example : (exportTiff none false [[1], [2], [3]] [(10, 20), (20, 30)] [(10, 15), (20, 25)]).toOption.map List.length
     = some 2 := by decide +kernel
+
+/-- The pixels of all written pages, in order, are `cast_image` of all frames' values in order: the element-wise
+    theorems (`cast_never_wraps`, `cast_f32_close`, …) hold for every page of an export. -/
+theorem export_tiff_pixels (d : DType) (clip : Bool) (frames : List (List Rat)) (dead exp : List (Int × Int))
+    (pages : List TiffPage) (h : exportTiff (some d) clip frames dead exp = .ok pages)
+    (hl1 : frames.length = dead.length) (hl2 : exp.length = dead.length) :
+    castImage d clip frames.flatten = .ok (pages.map (·.img)).flatten := by
+  obtain ⟨_, _, fr, hfr, rfl⟩ := exportTiff_ok (some d) clip frames dead exp pages h
+  have hlen := framesWritten_length (some d) clip frames fr hfr
+  have hz2 : (dead.zip (exposureTimesMs exp)).length = dead.length := by
+    rw [List.length_zip]; simp [exposureTimesMs, hl2]
+  have p0 : (fr.zip (dead.zip (exposureTimesMs exp))).map Prod.fst = fr :=
+    List.map_fst_zip (by rw [hz2, hlen, hl1])
+  rw [List.map_map]
+  have : ((fun p : TiffPage => p.img) ∘ fun t : List Rat × (Int × Int) × Rat =>
+      (⟨encodeRange t.2.1.1 t.2.1.2, t.2.2, t.1⟩ : TiffPage)) = Prod.fst := rfl
+  rw [this, p0, ← castFrames_flatten]
+  have hc : castFrames d clip frames = .ok fr := hfr
+  rw [hc]; rfl
 
 /-! ## The stack export is the mixin export on the stack's hooks -/
 
